@@ -105,6 +105,7 @@ type PrefixScanPlan struct {
 	Filter  *FilterExec
 	Prefix  string
 	iter    Cursor
+	done    bool
 }
 
 func NewPrefixScanPlan(s Storage, f *FilterExec, p string) Plan {
@@ -116,6 +117,7 @@ func NewPrefixScanPlan(s Storage, f *FilterExec, p string) Plan {
 }
 
 func (p *PrefixScanPlan) Init() (err error) {
+	p.done = false
 	p.iter, err = p.Storage.Cursor()
 	if err != nil {
 		return err
@@ -125,17 +127,19 @@ func (p *PrefixScanPlan) Init() (err error) {
 
 func (p *PrefixScanPlan) Next(ctx *ExecuteCtx) ([]byte, []byte, error) {
 	pb := []byte(p.Prefix)
-	for {
+	for !p.done {
 		key, val, err := p.iter.Next()
 		if err != nil {
 			return nil, nil, err
 		}
 		if key == nil {
+			p.done = true
 			break
 		}
 
 		// Key not have the prefix
 		if !bytes.HasPrefix(key, pb) {
+			p.done = true
 			break
 		}
 
@@ -161,6 +165,8 @@ func (p *PrefixScanPlan) Batch(ctx *ExecuteCtx) ([]KVPair, error) {
 		chooseIdxes = make([]int, 0, 2*PlanBatchSize)
 		bidx        = 0
 	)
+	// The scan already reached the end of the prefix, do not read further keys
+	finish = p.done
 	for !finish {
 		filterBatch = filterBatch[:0]
 		for i := 0; i < PlanBatchSize; i++ {
@@ -170,11 +176,13 @@ func (p *PrefixScanPlan) Batch(ctx *ExecuteCtx) ([]KVPair, error) {
 			}
 			if key == nil {
 				finish = true
+				p.done = true
 				break
 			}
 			// Key not have the prefix
 			if !bytes.HasPrefix(key, pb) {
 				finish = true
+				p.done = true
 				break
 			}
 			filterBatch = append(filterBatch, NewKVP(key, val))
@@ -215,6 +223,7 @@ type RangeScanPlan struct {
 	Start   []byte
 	End     []byte
 	iter    Cursor
+	done    bool
 }
 
 func NewRangeScanPlan(s Storage, f *FilterExec, start []byte, end []byte) Plan {
@@ -227,6 +236,7 @@ func NewRangeScanPlan(s Storage, f *FilterExec, start []byte, end []byte) Plan {
 }
 
 func (p *RangeScanPlan) Init() (err error) {
+	p.done = false
 	p.iter, err = p.Storage.Cursor()
 	if err != nil {
 		return err
@@ -241,17 +251,19 @@ func (p *RangeScanPlan) Init() (err error) {
 }
 
 func (p *RangeScanPlan) Next(ctx *ExecuteCtx) ([]byte, []byte, error) {
-	for {
+	for !p.done {
 		key, val, err := p.iter.Next()
 		if err != nil {
 			return nil, nil, err
 		}
 		if key == nil {
+			p.done = true
 			break
 		}
 
 		// Key is greater than End
 		if p.End != nil && bytes.Compare(key, p.End) > 0 {
+			p.done = true
 			break
 		}
 
@@ -276,6 +288,8 @@ func (p *RangeScanPlan) Batch(ctx *ExecuteCtx) ([]KVPair, error) {
 		chooseIdxes = make([]int, 0, 2*PlanBatchSize)
 		bidx        = 0
 	)
+	// The scan already reached the end of the range, do not read further keys
+	finish = p.done
 	for !finish {
 		filterBatch = filterBatch[:0]
 		for i := 0; i < PlanBatchSize; i++ {
@@ -285,11 +299,13 @@ func (p *RangeScanPlan) Batch(ctx *ExecuteCtx) ([]KVPair, error) {
 			}
 			if key == nil {
 				finish = true
+				p.done = true
 				break
 			}
 			// Key is greater than End
 			if p.End != nil && bytes.Compare(key, p.End) > 0 {
 				finish = true
+				p.done = true
 				break
 			}
 			filterBatch = append(filterBatch, NewKVP(key, val))
